@@ -14,7 +14,8 @@ def conditions(tier):
     cs += [C(HF, "HexInt", "h_value_int", t=T), C(HF, "OneOf_SpacesHex", "h_value_int", t=T), C(HF, "IntSpaces", "h_value_int", t=T),
            C(HF, "OneOf_DictSpacesHex", "h_value_int", t=T), C(HF, "Dict", "h_value_int", t=T),
            C(HF, "DecInt", "h_value_dec", t=T), C(HF, "Spaces_g", "h_value_run", t=T), C(HF, "Spaces_a", "h_value_run", t=T),
-           C(HF, "Spaces_z", "h_value_run", t=T), C(HF, "OneOf_SpacesHex", "h_value_run", t=T), C(HF, "IntSpaces", "h_value_run", t=T),
+           C(HF, "Spaces_z", "h_value_run", t=T), C(HF, "Spaces_0", "h_value_run", t=T), C(HF, "Spaces_5", "h_value_run", t=T),
+           C(HF, "Spaces_9", "h_value_run", t=T), C(HF, "OneOf_SpacesHex", "h_value_run", t=T), C(HF, "IntSpaces", "h_value_run", t=T),
            C(HF, "MultiDigit33", "h_value_digits", t=T), C(HF, "MultiDigit25", "h_value_digits", t=T)]
     # value side: compositions
     for w in ((2,) if q else (1, 2, 3)):
@@ -64,7 +65,7 @@ def run(tier, only=None):
     rep.functions = ["every Combinator subclass of cspuz.problem_serializer (FixStr Dict Spaces DecInt HexInt IntSpaces MultiDigit OneOf Tupl "
                      "Seq Grid Rooms ValuedRooms)", "serialize_problem", "deserialize_problem", "_to_base36/_from_base36/_to_base16/_from_base16"]
     rep.bounds = {"value side": "HexInt/OneOf/IntSpaces items -3..4100 followed by 0..3 spaces and one more item; DecInt -2..300; space runs 0..40 "
-                  "(across the one-character limit) for smallest = g / a / z; MultiDigit groups of 1..4 digits; Seq/Tupl/Grid on 1xW (W<=3) and "
+                  "(across the one-character limit) for smallest = g / a / z / 0 / 5 / 9; MultiDigit groups of 1..4 digits; Seq/Tupl/Grid on 1xW (W<=3) and "
                   "boards up to %s" % ("1x3" if tier == "quick" else "2x3"),
                   "text side": "EVERY Unicode text of length <= %d per leaf / composition (values in the decoder's image must re-encode and decode "
                   "to themselves, consuming the text entirely)" % (3 if tier == "quick" else 4),
